@@ -100,6 +100,7 @@ package env
 //@   ensures [function-name] funcName != "" ==> e.platform["AWS_LAMBDA_FUNCTION_NAME"] == funcName && has(e.platform, "AWS_LAMBDA_FUNCTION_NAME")
 //@   ensures [function-version] funcVer != "" ==> e.platform["AWS_LAMBDA_FUNCTION_VERSION"] == funcVer && has(e.platform, "AWS_LAMBDA_FUNCTION_VERSION")
 //@   ensures [customer-overlay] forall k string :: has(customerEnv, k) ==> has(e.Customer, k) && e.Customer[k] == customerEnv[k]
+//@   ensures [nothing-else-enters-the-customer-layer] forall k string :: has(e.Customer, k) <==> (old(has(e.Customer, k)) || has(customerEnv, k))
 //@   ensures [runtime-api-kept] old(has(e.platform, runtimeAPIAddressKey)) ==> has(e.platform, runtimeAPIAddressKey) && e.platform[runtimeAPIAddressKey] == old(e.platform[runtimeAPIAddressKey])
 //@   ensures [marked] e.initEnvVarsSet && envWired(e)
 
@@ -108,6 +109,14 @@ package env
 //@   ensures [credentials] e.credentials["AWS_ACCESS_KEY_ID"] == awsKey && e.credentials["AWS_SECRET_ACCESS_KEY"] == awsSecret && e.credentials["AWS_SESSION_TOKEN"] == awsSession && has(e.credentials, "AWS_ACCESS_KEY_ID") && has(e.credentials, "AWS_SECRET_ACCESS_KEY") && has(e.credentials, "AWS_SESSION_TOKEN")
 //@   ensures [handler] handler != "" ==> e.runtime[handlerEnvKey] == handler && has(e.runtime, handlerEnvKey)
 //@   ensures [marked] e.initEnvVarsSet && envWired(e)
+
+//@ func predefinedCredentialsEnvVarKeys
+//@   modifies nothing
+//@   ensures [exact] r0 != nil && fresh(r0) && (forall k string :: r0[k] <==> (k == "AWS_ACCESS_KEY_ID" || k == "AWS_SECRET_ACCESS_KEY" || k == "AWS_SESSION_TOKEN"))
+//@ func (*Environment).StoreEnvironmentVariablesFromInitForInitCaching$1
+//@   pure
+//@   modifies nothing
+//@   ensures [predicate] r0 <==> credentialKeys[key]
 
 // C18: in snapshot (init caching) mode the credentials layer holds only the endpoint URI and the token, never the keys themselves
 //@ func (*Environment).StoreEnvironmentVariablesFromInitForInitCaching
